@@ -711,6 +711,98 @@ def run_none_patterns(ctx):
     ctx.evaluations += len(req)
 
 
+# --------------------------------------------------------------------------- stream A4: different nuclide sets per block
+def run_nuclide_sets(ctx):
+    """neighbouring source blocks with DIFFERENT nuclide sets (nuclides removed per block, so that each side of an
+    interface holds nuclides the other side lacks); destination cells straddling the interfaces: the atoms of every
+    nuclide of the UNION of the source blocks are conserved"""
+    import copy
+
+    from armi.reactor.converters import uniformMesh
+
+    fx = fixtures()
+    UM = uniformMesh.UniformMeshGeometryConverter
+    req, chk = [], []
+    for _ in range(ctx.pick(25, 400)):
+        a0 = ctx.rng.choice(fx["assems"])
+        a = copy.deepcopy(a0)
+        H = a.getTotalHeight()
+        present = []
+        for b in a:
+            nucs_b = sorted(b.getNuclides())
+            drop = set(ctx.rng.sample(nucs_b, int(len(nucs_b) * ctx.rng.choice([0.3, 0.5, 0.7]))))
+            for c in b:
+                if c.p.numberDensities:
+                    c.p.numberDensities = {n: v for n, v in c.p.numberDensities.items() if n not in drop}
+            present.append(set(n for n in b.getNuclides() if b.getNumberDensity(n) > 0.0))
+        union = sorted(set().union(*present))
+        if not union:
+            continue
+        srcmesh = [0.0] + [float(b.p.ztop) for b in a]
+        kind = ctx.rng.choice(["cut", "cut", "shifted", "coarser", "finer"])
+        if kind == "cut":     # every interior interface is straddled by a destination cell
+            pts = set()
+            for z in srcmesh[1:-1]:
+                pts.add(z - ctx.rng.choice([1.0, 4.0, 5.5]))
+                if ctx.rng.random() < 0.5:
+                    pts.add(z + ctx.rng.choice([2.0, 6.0]))
+            mesh = [0.0] + sorted(p for p in pts if 0.0 < p < H) + [H]
+        else:
+            mesh = gen_mesh(ctx.rng, H, srcmesh, kind)
+        case = {"assembly": a0.getType(), "mode": "nuclide-sets", "source_mesh": srcmesh, "target_mesh": mesh,
+                "nuclides_per_block": [len(p) for p in present]}
+        try:
+            S = snap(a, union)
+            try:
+                new = UM.makeAssemWithUniformMesh(a, mesh[1:], paramMapper=None, mapNumberDensities=True)
+                back = UM.makeAssemWithUniformMesh(new, srcmesh[1:], paramMapper=None, mapNumberDensities=True)
+            except Exception as e:  # noqa
+                ctx.fail("remap-raises-on-valid-mesh", "re-meshing blocks with different nuclide sets succeeds", case,
+                         observed=repr(e)[:300])
+                continue
+            D, Bk = snap(new, union), snap(back, union)
+            only_one = []
+            for n in union:
+                a0_ = sum(b["nd"][n] * b["h"] for b in S)
+                a1 = sum(b["nd"][n] * b["h"] for b in D)
+                a2 = sum(b["nd"][n] * b["h"] for b in Bk)
+                holders = sum(1 for p in present if n in p)
+                if holders == 1:
+                    only_one.append(n)
+                if not fclose(a0_, a1, 1e-11):
+                    ctx.fail("remap-atoms-conserved-nuclide-union", f"atoms of {n} (held by {holders} of {len(present)} source "
+                             "blocks) are conserved when destination cells straddle blocks with different nuclide sets",
+                             dict(case, nuclide=n), observed=a1, expected=a0_)
+                elif not fclose(a0_, a2, 1e-11):
+                    ctx.fail("roundtrip-atoms", "mapping there and back restores the atoms of every nuclide", dict(case, nuclide=n),
+                             observed=a2, expected=a0_)
+            zb, zt, hh = geom(S)
+            dzb, dzt, dh = geom(D)
+            pick = (only_one[:3] + ctx.rng.sample(union, min(3, len(union))))[:5]
+            for n in pick:
+                req.append(f"remapnd {zb} {zt} {hh} {ratlist([s['nd'][n] for s in S])} {dzb} {dzt} {dh}")
+                chk.append((dict(case, nuclide=n), [d["nd"][n] for d in D]))
+            ctx.count("nuclide-set cases (blocks with different nuclide sets)")
+            ctx.count("nuclides held by exactly one source block", len(only_one))
+            ctx.case(("nucsets", a0.getType(), tuple(mesh), tuple(len(p) for p in present), _), nontrivial=True)
+        except common.Infra:
+            raise
+        except Exception as e:  # noqa
+            del req[len(chk):]
+            ctx.fail("remap-state-not-evaluable", "the mapped state can be read back and compared", case, observed=repr(e)[:300])
+    model = lean_run("Mesh", req)
+    for (case, impl), line, rq in zip(chk, model, req):
+        ok = line not in ("reject", "bad-op")
+        if ok:
+            m = common.parse_list(line)
+            ok = len(m) == len(impl) and all(x != "_" and (relclose(v, x, 1e-9) or (float(Fraction(x)) == 0.0 and v == 0.0))
+                                             for x, v in zip(m, impl))
+        if not ok:
+            ctx.disagree("Model/Mesh.lean vs setNumberDensitiesFromOverlaps (different nuclide sets)",
+                         dict(case, request=rq[:400]), line[:400], str(impl)[:400])
+    ctx.evaluations += len(req)
+
+
 # --------------------------------------------------------------------------- stream A': near-coincident points
 def run_near(ctx):
     from armi.reactor.converters import uniformMesh
@@ -1141,6 +1233,7 @@ def run(ctx):
     run_avg1d(ctx)
     run_assemblies(ctx)
     run_none_patterns(ctx)
+    run_nuclide_sets(ctx)
     run_repeated(ctx)
     run_near(ctx)
     ctx.rule = ("assembly stream: (fixture assembly type, source mesh, target mesh, profile mode) with target meshes "
@@ -1148,7 +1241,8 @@ def run(ctx):
                 "2^-22 cm beside source boundaries) and 'nearsame' (same point count, relative offsets 1e-6..1e-4), profiles "
                 "plain / with None / negative peaks / constant / exact zeros, chained 1-3 deep and mapped back; unset-value patterns "
                 "(first / middle / last overlapped source block unset, per parameter independently) x lists of 2-4 mapped "
-                "parameters in every listing order; repeated "
+                "parameters in every listing order; neighbouring blocks with different nuclide sets (nuclides removed per block) "
+                "under meshes cutting across every interface, atoms checked over the union of source nuclides; repeated "
                 "application: 10-30 successive re-meshings of one state compared with the ORIGINAL totals after every "
                 "step; non-trivial = target mesh differs from the source mesh. Direct streams: distinct generated inputs "
                 "of _filterMesh (random and clustered candidates/anchors, corpus of hand-written cases, both preferences) "
